@@ -25,14 +25,15 @@ func c06Jobs(tier string) []Job {
 	}
 	for _, t := range as {
 		js = append(js, Job{Dir: "", Harness: "VH_C06_cmpp_ascii", Params: map[string]int{"T": t}, Weight: t})
-		js = append(js, Job{Dir: "", Harness: "VH_C06_smpp_ascii", Params: map[string]int{"T": t}, Weight: t})
+		js = append(js, Job{Dir: "", Harness: "VH_C06_smpp_ascii", Params: map[string]int{"T": t, "c": 1}, Weight: t})
+		js = append(js, Job{Dir: "", Harness: "VH_C06_smpp_ascii", Params: map[string]int{"T": t, "c": 3}, Weight: t})
 	}
 	us := []int{1, 70, 71, 134, 135}
 	if tier == "thorough" {
 		us = append(us, 2, 67, 68, 69, 133, 136, 201, 202)
 	}
 	for _, t := range us {
-		for smpp := 0; smpp <= 1; smpp++ {
+		for smpp := 0; smpp <= 2; smpp++ {
 			js = append(js, Job{Dir: "", Harness: "VH_C06_ucs2", Params: map[string]int{"T": t, "smpp": smpp}, Weight: 2 * t})
 		}
 	}
@@ -82,7 +83,7 @@ func init() {
 		ID: "C06", Jobs: c06Jobs, Functions: fns, Stubs: stubs,
 		Bounds: map[string]string{
 			"packed GSM-7": "every valid septet stream of length T (content symbolic; escape pairs anywhere within 3 septets before / 1 after each multiple of 153, in the first 2 and last 3 septets, and anywhere for T <= 8), T in {0..8,159,160,161,166,305,306,307} - the last part's septet count takes every remainder modulo 8 (thorough adds 152..158, 162..168 and up to 613 = 4 parts); oracle: reference segmentation + reference packer",
-			"ASCII":        "every ASCII text of T octets through the CMPP and SMPP entry points, T in {0,1,140,141,268,269} (thorough up to 537)",
+			"ASCII":        "every ASCII text of T octets through the CMPP (coding 0) and SMPP (coding 1 ASCII, coding 3 Latin-1) entry points, T in {0,1,140,141,268,269} (thorough up to 537); UCS-2 through SMPP 8, CMPP 8 and CMPP 9",
 			"UCS-2":        "every text of T ASCII-range characters, T in {1,70,71,134,135} (thorough up to 202), both entry points",
 			"fallback":     "texts 'a'+r for every BMP scalar r >= 0x80 (symbolic); every invalid coding number (symbolic int); T concrete ASCII letters followed by one symbolic CJK character (T in {69,70,80}, thorough up to 134) requested as SMPP GSM-7 unpacked/packed, ASCII, Latin-1 and CMPP ASCII",
 		},
